@@ -1444,3 +1444,182 @@ func ruleFontsFromOwnResources(c *eng.Ctx) {
 		c.Undec(R, "text.(*Extractor).RegisterFontsFromResources#register", reg.Pos(), "no font registration in the entry loop found")
 	}
 }
+
+// R4.10 [C04]
+func ruleObjStmHeaderOrder(c *eng.Ctx) {
+	const R = "R4.10-OBJSTM-HEADER-ORDER"
+	c.Rule(R, "the (object number, offset) pairs of an object stream stay in header order: a type-2 cross-reference entry addresses a member by its position in the header, and a member ends where the next pair in header order begins, so the slice is never reordered in place", 1, 1)
+	n := 0
+	for _, fn := range c.P.ModuleFuncs() {
+		if fn.Pkg == nil {
+			continue
+		}
+		sp := eng.ShortPath(fn.Pkg.Pkg.Path())
+		if sp != "core" && !strings.Contains(fn.Pkg.Pkg.Path(), eng.PositivePkg) {
+			continue
+		}
+		usesOffsets := false
+		eng.Instrs(fn, false, func(in ssa.Instruction) {
+			if fa, ok := in.(*ssa.FieldAddr); ok {
+				if fr, ok := eng.AsField(fa); ok && fr.Field == "offsets" {
+					usesOffsets = true
+				}
+			}
+		})
+		if !usesOffsets {
+			continue
+		}
+		n++
+		bad := token.NoPos
+		for _, ci := range eng.Calls(fn, false, func(nm string, _ ssa.CallInstruction) bool { return sortInPlace[nm] }) {
+			for v := range eng.Slice(ci.Common().Args[0], nil) {
+				if fr, ok := eng.AsField(v); ok && fr.Field == "offsets" {
+					bad = ci.Pos()
+				}
+			}
+		}
+		if bad != token.NoPos {
+			c.Viol(R, eng.FuncName(fn), bad, "the header pairs of the object stream are sorted in place: index k no longer means 'the k-th pair of the header', so a type-2 entry fetches another member")
+		} else {
+			c.Ok(R, eng.FuncName(fn), fn.Pos(), "header order kept")
+		}
+	}
+	if n == 0 {
+		c.Undec(R, "core.(*ObjectStream)", token.NoPos, "no function uses the header pairs")
+	}
+}
+
+// fileIntFuncs: module functions (returning an integer) whose result can be an integer read from the file: the
+// conversion of a core.Int / core.Real object, directly or through other such functions.
+type fieldKey struct {
+	st  string
+	idx int
+}
+
+var fileIntFields = map[fieldKey]bool{}
+
+func fileIntFuncs(p *eng.Prog) map[*ssa.Function]bool {
+	out := map[*ssa.Function]bool{}
+	fileIntFields = map[fieldKey]bool{}
+	for changed, round := true, 0; changed && round < 5; round++ {
+		changed = false
+		for _, fn := range p.ModuleFuncs() {
+			// fields that receive a file integer
+			eng.Instrs(fn, false, func(in ssa.Instruction) {
+				st, ok := in.(*ssa.Store)
+				if !ok {
+					return
+				}
+				fa, ok := st.Addr.(*ssa.FieldAddr)
+				if !ok {
+					return
+				}
+				if bt, ok := st.Val.Type().Underlying().(*types.Basic); !ok || bt.Info()&types.IsInteger == 0 {
+					return
+				}
+				k := fieldKey{eng.TypeName(fa.X.Type()), fa.Field}
+				if !fileIntFields[k] && isFileInt(st.Val, out) {
+					fileIntFields[k] = true
+					changed = true
+				}
+			})
+			if out[fn] || fn.Blocks == nil || fn.Signature.Results().Len() == 0 {
+				continue
+			}
+			for _, r := range eng.Returns(fn) {
+				rv := eng.ReturnValues(r)
+				if len(rv) == 0 {
+					continue
+				}
+				if bt, ok := rv[0].Type().Underlying().(*types.Basic); !ok || bt.Info()&types.IsInteger == 0 {
+					continue
+				}
+				if isFileInt(rv[0], out) {
+					out[fn] = true
+					changed = true
+				}
+			}
+		}
+	}
+	return out
+}
+
+func isFileInt(v ssa.Value, fns map[*ssa.Function]bool) bool {
+	for w := range eng.Slice(v, nil) {
+		switch x := w.(type) {
+		case *ssa.Convert:
+			if tn := eng.TypeName(x.X.Type()); strings.HasSuffix(tn, "core.Int") || strings.HasSuffix(tn, "core.Real") || strings.HasSuffix(tn, ".fileInt") {
+				return true
+			}
+		case *ssa.UnOp:
+			if fa, ok := x.X.(*ssa.FieldAddr); ok && x.Op == token.MUL && fileIntFields[fieldKey{eng.TypeName(fa.X.Type()), fa.Field}] {
+				return true
+			}
+		case *ssa.Call:
+			if g := x.Call.StaticCallee(); g != nil && fns[g] {
+				return true
+			}
+		case *ssa.Extract:
+			if call, ok := x.Tuple.(*ssa.Call); ok && x.Index == 0 {
+				if g := call.Call.StaticCallee(); g != nil && fns[g] {
+					return true
+				}
+			}
+		}
+	}
+	return false
+}
+
+// R2.12 [C02]
+func ruleAllocFromFileInt(c *eng.Ctx) {
+	const R = "R2.12-ALLOC-FROM-FILE-INT"
+	c.Rule(R, "no slice, map or channel is sized by an integer read from the file (a converted core.Int/core.Real, directly or through the accessors that return one) unless a comparison with a constant or with the length of data that is present bounds it first: a negative or huge /Count, /N, /Length or /Size otherwise aborts the process in make()", 1, 1)
+	fns := fileIntFuncs(c.P)
+	n := 0
+	for _, fn := range c.P.ModuleFuncs() {
+		if fn.Blocks == nil {
+			continue
+		}
+		k := 0
+		eng.Instrs(fn, false, func(in ssa.Instruction) {
+			var sizes []ssa.Value
+			switch x := in.(type) {
+			case *ssa.MakeSlice:
+				sizes = []ssa.Value{x.Len, x.Cap}
+			case *ssa.MakeMap:
+				if x.Reserve != nil {
+					sizes = []ssa.Value{x.Reserve}
+				}
+			case *ssa.MakeChan:
+				sizes = []ssa.Value{x.Size}
+			default:
+				return
+			}
+			for i, sz := range sizes {
+				if i == 1 && sizes[0] == sizes[1] {
+					continue
+				}
+				if _, isC := eng.ConstInt(sz); isC || !isFileInt(sz, fns) {
+					continue
+				}
+				n++
+				k++
+				accept := func(b ssa.Value) bool {
+					if _, isC := eng.ConstInt(b); isC {
+						return true
+					}
+					for v := range eng.Slice(b, nil) {
+						if call, ok := v.(*ssa.Call); ok && eng.CalleeName(call) == "builtin:len" {
+							return true
+						}
+					}
+					return false
+				}
+				ok := hasUpperGuard(fn, sz, in.Block(), accept) || bounded(fn, sz, 1<<30, true, in.Block(), 0)
+				key := fmt.Sprintf("%s#make%d", eng.FuncName(fn), k)
+				c.Check(ok, R, key, in.Pos(), "file-supplied size bounded before the allocation",
+					"an allocation is sized by an integer taken from the file with no upper bound on the way: a negative or huge value panics in make() or exhausts memory")
+			}
+		})
+	}
+}
